@@ -33,7 +33,11 @@ Inductive witem := WRun (a b : N) | WStuck (id : N).
    connection ended, the session came back: [again] = the sequence numbers (0-based) of the retransmissions (DUP set) in
    arrival order - the three, in the order in which they were first sent (WriterProofs.retransmit_before_new) *)
 Inductive xcase := XWrap (items : list witem) | XBulk (n got : Z) | XAckOrder (same_id kept released : bool) (quota : Z)
-                 | XTail (n : Z) (again : list Z).
+                 | XTail (n : Z) (again : list Z)
+(* XOwed: a PUBREC was taken while the writer was blocked, then the connection ended: the next connection was sent
+   [pubrels] PUBRELs for it (one), and after PUBCOMP [got] of three QoS 1 messages arrived unacknowledged under
+   Receive Maximum 3 (all three: the slot came back) *)
+                 | XOwed (pubrels got : Z).
 
 Definition free_run (a b : N) (stuck : list N) : bool :=
   (1 <=? a) && (a <=? b) && (b <=? 65535) && forallb (fun x => (x <? a) || (b <? x)) stuck.
@@ -57,6 +61,7 @@ Definition xcase_ok (x : xcase) : bool :=
   match x with
   | XWrap its => wrap_ok 0 [] its
   | XBulk n got => (got =? n)%Z
+  | XOwed pubrels got => ((pubrels =? 1) && (got =? 3))%Z
   | XTail n again => match again with [a; b; c] => ((a =? n) && (b =? n + 1) && (c =? n + 2))%Z | _ => false end
   | XAckOrder same kept released quota => same && kept && released && (quota =? 1)%Z
   end.
